@@ -275,6 +275,23 @@ def one(ctx: Ctx, cs, n_triples=110):
             ctx.violation(key, f'include={inc} exclude={exc_} ids={ids} types={tys} enc={enc}: {msg}', c2)
         elif (inc is not None or exc_ is not None) and 0 < len(keep) < n and enc != 'ekern' and out.strip():
             ctx.nontriv(cs, inc, exc_, tuple(ids) if ids is not None else None, tuple(tys) if tys is not None else None, enc)
+        # composition with kernpy's OWN category + encoding transformation: the same export without the spine selection, its
+        # columns deleted textually afterwards (which placeholder a filtered cell shows is kernpy's choice - the same choice
+        # whether or not other columns are exported beside it).  Needs the headers and the spine operators in the export.
+        if msg is None and (ids is not None or tys is not None) and {'HEADER', 'SPINE_OPERATION'} <= set(sel) and \
+                set(doc.headers) <= set(kpx.T.HEADERS) and 'separator_in_text_cell' not in doc.tags:
+            kw_f = {k_: v_ for k_, v_ in kw.items() if k_ not in ('spine_ids', 'spine_types')}
+            full_f, err_f = kpx.dumps(d, **kw_f)
+            if err_f is None:
+                from ..model import humdrum as H
+                proj = H.project(full_f, keep)
+                ctx.mon('projections_of_the_real_filtered_export')
+                if proj is not None and proj != out:
+                    a_, b_ = proj.split('\n'), out.split('\n')
+                    j = next((i_ for i_, (p_, q_) in enumerate(zip(a_, b_)) if p_ != q_), min(len(a_), len(b_)))
+                    ctx.violation('selection-changes-filtered-cells', f'include={inc} exclude={exc_} ids={ids} types={tys} enc={enc}: line '
+                                  f'{j + 1} is {b_[j] if j < len(b_) else None!r}, the same export without the spine selection has '
+                                  f'{a_[j] if j < len(a_) else None!r} in these columns', c2)
     if len(ctx.samples) < 2 and len(x) < 400 and n >= 2:
         out, _ = kpx.dumps(d, spine_ids=[0], exclude={TC.DECORATION}, encoding=kp.Encoding.bEkern)
         ctx.sample({'case_seed': cs, 'text': x, 'options': 'spine_ids=[0], exclude={DECORATION}, encoding=bEkern', 'export': out})
